@@ -914,7 +914,9 @@ class CircuitDAG(CircuitBase):
         if "Identity" in self.node_dict:
             identity_list = self.node_dict["Identity"].copy()
             for node in identity_list:
-                self.remove_op(node)
+                # an identity that carries a noise model is a noise channel, not a no-op
+                if isinstance(self.dag.nodes[node]["op"].noise, NoNoise):
+                    self.remove_op(node)
 
     def _max_depth(self, root_node):
         """
